@@ -332,6 +332,22 @@ func newCluster(dir string, nNodes, rf int, segSize int32) (*Cluster, error) {
 	return c, nil
 }
 
+// newBareCluster starts storage nodes without any coordinator (the harness plays leader / coordinator itself).
+func newBareCluster(dir string, names []string, segSize int32) (*Cluster, error) {
+	c := &Cluster{dir: dir, nodes: map[string]*Node{}, hist: &History{}, rf: len(names)}
+	c.wire = newWire(c, c.hist)
+	c.nsConfig = &model.NamespaceConfig{Name: nsName, InitialShardCount: 1, ReplicationFactor: uint32(len(names))}
+	for _, name := range names {
+		n := &Node{c: c, name: name, dir: filepath.Join(dir, name), segSize: segSize, maxTermAnswered: -1}
+		c.nodes[name] = n
+		c.order = append(c.order, name)
+		if err := n.start(); err != nil {
+			return nil, err
+		}
+	}
+	return c, nil
+}
+
 // startCoordinator builds a StatusResource and a ShardController from the stored metadata (what a
 // (re)started coordinator does).
 func (c *Cluster) startCoordinator() {
